@@ -60,6 +60,17 @@ def sh(cmd, cwd, env=None, timeout=1800):
 
 
 def build(flavours, need_cli, need_cli_race):
+    global BUILD
+    modfile = []
+    if os.path.realpath(REPO) != "/repo":
+        # mutant testing: build against another checkout without touching /repo or harness/go.mod
+        tagdir = hashlib.sha256(os.path.realpath(REPO).encode()).hexdigest()[:10]
+        BUILD = os.path.join(VERIF, ".build", "alt-" + tagdir)
+        os.makedirs(BUILD, exist_ok=True)
+        gm = open(os.path.join(HARNESS, "go.mod")).read().replace("replace rare => /repo", "replace rare => " + os.path.realpath(REPO))
+        open(os.path.join(BUILD, "go.mod"), "w").write(gm)
+        shutil.copy(os.path.join(HARNESS, "go.sum"), os.path.join(BUILD, "go.sum"))
+        modfile = ["-modfile=" + os.path.join(BUILD, "go.mod")]
     os.makedirs(BUILD, exist_ok=True)
     lock = open(os.path.join(BUILD, "lock"), "w")
     fcntl.flock(lock, fcntl.LOCK_EX)
@@ -70,7 +81,7 @@ def build(flavours, need_cli, need_cli_race):
         for fl in sorted(set(flavours)):
             flag = {"plain": [], "race": ["-race"], "asan": ["-asan"]}[fl]
             dst = os.path.join(BUILD, "vh-" + fl)
-            jobs.append((["go", "build", "-tags", "verif"] + flag + ["-o", dst + "." + tag, "./cmd/vh"], HARNESS, dst))
+            jobs.append((["go", "build", "-tags", "verif"] + modfile + flag + ["-o", dst + "." + tag, "./cmd/vh"], HARNESS, dst))
             outs["vh-" + fl] = dst
         if need_cli:
             dst = os.path.join(BUILD, "rare")
@@ -328,10 +339,14 @@ def main():
 
 
 def load_known(pid):
-    try:
-        return [k for k in json.load(open(os.path.join(VERIF, "known_findings.json"))) if k.get("property") == pid]
-    except Exception:
-        return []
+    import glob
+    out = []
+    for f in [os.path.join(VERIF, "known_findings.json")] + sorted(glob.glob(os.path.join(VERIF, "known.d", "*.json"))):
+        try:
+            out += [k for k in json.load(open(f)) if k.get("property") == pid]
+        except Exception:
+            pass
+    return out
 
 
 def merge(m, res, count=True):
